@@ -5,8 +5,10 @@
     - soundness: every interpretation emitted is a two-valued model / a stable model;
     - the two stacks stay synchronous and no nogood is too long for the store: no panic;
     - termination within a bound depending only on the number of statements, for every admissible
-      heuristic (for at least one statement; on the empty ADF the loop never ends);
-    - completeness and absence of duplicates. *)
+      heuristic (for at least one statement; on the empty ADF the loop as it was never ends; the
+      repaired loop, [stop_exhausted = true], which ends when a backtrack finds no choice entry,
+      terminates on every framework and returns the empty model once on the empty one);
+    - completeness and absence of duplicates, for both forms of the loop. *)
 From Coq Require Import NArith List Bool Lia Arith.
 From ADF Require Import Base.Maps Spec.Spec Spec.Theory Bdd.Store Bdd.WF Bdd.Node Bdd.Restrict Bdd.Ops
   Adf.Iter Adf.IterProofs Adf.Native Adf.NoGood Adf.NoGoodProofs Adf.NativeBase Adf.GroundedProofs
@@ -177,6 +179,7 @@ Section Phases.
   Variable h : heuristic.
   Variable rf : bool.
   Variable two : bool.
+  Variable sx : bool.     (* stop_exhausted: the repaired loop *)
 
   (** 1. the choice *)
   Definition phase1 (st : store) (s : ngstate) : option ngstate :=
@@ -192,17 +195,20 @@ Section Phases.
       end
     else Some s.
 
-  (** 3. the backtrack *)
-  Inductive p2res := P2Break | P2Panic | P2Go (s2 : ngstate).
+  (** 3. the backtrack; [P2Break sb]: the loop ends in state [sb] (empty stack, or - repaired
+      loop - no choice entry found) *)
+  Inductive p2res := P2Break (sb : ngstate) | P2Panic | P2Go (s2 : ngstate).
   Definition phase2 (s1 : ngstate) : p2res :=
     if g_backtrack s1 then
       match g_stack s1 with
-      | [] => P2Break
+      | [] => P2Break s1
       | _ =>
         match unwind (g_store s1) (g_stack s1) (g_hist s1) (g_cur s1) with
         | None => P2Panic
-        | Some (ngs, stk, hist, cur) =>
-          P2Go (mkNG cur ngs stk hist false (g_choice s1) (g_out s1) (g_draws s1))
+        | Some (ngs, stk, hist, cur, found) =>
+          if sx && negb found
+          then P2Break (mkNG cur ngs stk hist false (g_choice s1) (g_out s1) (g_draws s1))
+          else P2Go (mkNG cur ngs stk hist false (g_choice s1) (g_out s1) (g_draws s1))
         end
       end
     else P2Go s1.
@@ -254,12 +260,12 @@ Section Phases.
     end.
 
   Lemma ng_step_eq st s :
-    ng_step c ac h rf two st s =
+    ng_step c ac h rf two sx st s =
     match phase1 st s with
     | None => None
     | Some s1 =>
       match phase2 s1 with
-      | P2Break => Some (Break st s1)
+      | P2Break sb => Some (Break st sb)
       | P2Panic => Some Panic
       | P2Go s2 => phase3 st s2
       end
@@ -270,14 +276,17 @@ Section Phases.
     - destruct (run_heuristic c h rf st s) as [[[[var t]|] dr]|]; cbn [negb]; try reflexivity.
       + unfold phase2. cbn [g_backtrack g_stack g_store g_hist g_cur g_choice g_out g_draws].
         destruct (g_backtrack s); [|reflexivity].
-        destruct (unwind _ _ _ _) as [[[[ngs stk] hist] cur]|]; reflexivity.
+        destruct (unwind _ _ _ _) as [[[[[ngs stk] hist] cur] found]|]; [|reflexivity].
+        destruct (sx && negb found); reflexivity.
       + unfold phase2. cbn [g_backtrack g_stack g_store g_hist g_cur g_choice g_out g_draws].
         destruct (g_stack s); [reflexivity|].
-        destruct (unwind _ _ _ _) as [[[[ngs stk] hist] cur]|]; reflexivity.
+        destruct (unwind _ _ _ _) as [[[[[ngs stk] hist] cur] found]|]; [|reflexivity].
+        destruct (sx && negb found); reflexivity.
     - cbn [negb]. unfold phase2.
       destruct (g_backtrack s); [|reflexivity].
       destruct (g_stack s); [reflexivity|].
-      destruct (unwind _ _ _ _) as [[[[ngs stk] hist] cur]|]; reflexivity.
+      destruct (unwind _ _ _ _) as [[[[[ngs stk] hist] cur] found]|]; [|reflexivity].
+      destruct (sx && negb found); reflexivity.
   Qed.
 
   (** the state handed to steps 5 and 6 *)
@@ -431,16 +440,16 @@ Section Phases.
   (** every way a step can end: no answer of the heuristic / of a sub-computation ([None]),
       the loop exit, the panic of the stack discipline, or one of the five continuations *)
   Lemma ng_step_cases st s r :
-    ng_step c ac h rf two st s = Some r ->
+    ng_step c ac h rf two sx st s = Some r ->
     exists s1, phase1 st s = Some s1 /\
-      ((phase2 s1 = P2Break /\ r = Break st s1) \/
+      ((exists sb, phase2 s1 = P2Break sb /\ r = Break st sb) \/
        (phase2 s1 = P2Panic /\ r = Panic) \/
        (exists s2, phase2 s1 = P2Go s2 /\ p3 st s2 r)).
   Proof.
     rewrite ng_step_eq. destruct (phase1 st s) as [s1|]; [|discriminate].
     intros H. exists s1. split; [reflexivity|].
-    destruct (phase2 s1) as [| |s2].
-    - left. inversion H. auto.
+    destruct (phase2 s1) as [sb| |s2].
+    - left. exists sb. inversion H. auto.
     - right; left. inversion H. auto.
     - right; right. exists s2. split; [reflexivity|]. now apply phase3_cases.
   Qed.
@@ -611,23 +620,23 @@ Qed.
 (* ------------------------------------------------------------------ *)
 (** * [unwind] *)
 
-Lemma unwind_spec : forall stack ngs hist cur ngs' stk' hist' cur',
-  unwind ngs stack hist cur = Some (ngs', stk', hist', cur') ->
-  (exists above g I,
+Lemma unwind_spec : forall stack ngs hist cur ngs' stk' hist' cur' found,
+  unwind ngs stack hist cur = Some (ngs', stk', hist', cur', found) ->
+  (found = true /\ exists above g I,
       stack = above ++ (true, g) :: stk' /\ Forall (fun f => fst f = false) above /\
       hist = I :: hist' /\ cur' = I /\
       add_all ngs (map snd above ++ [g]) = Some ngs') \/
-  (stk' = [] /\ Forall (fun f => fst f = false) stack /\ hist' = hist /\ cur' = cur /\
+  (found = false /\ stk' = [] /\ Forall (fun f => fst f = false) stack /\ hist' = hist /\ cur' = cur /\
    add_all ngs (map snd stack) = Some ngs').
 Proof.
-  induction stack as [|[ch g] rest IH]; intros ngs hist cur ngs' stk' hist' cur' H; cbn [unwind] in H.
+  induction stack as [|[ch g] rest IH]; intros ngs hist cur ngs' stk' hist' cur' found H; cbn [unwind] in H.
   - inversion H; subst. right. repeat split; auto.
   - destruct (add_ng ngs g) as [n1|] eqn:E; [|discriminate H].
     destruct ch.
     + destruct hist as [|old hist0]; [discriminate H|]. inversion H; subst.
-      left. exists [], g, cur'. cbn [app map add_all]. rewrite E. cbn [add_all]. repeat split; auto.
-    + apply IH in H. destruct H as [[above [g0 [I [Hs [Ha [Hh [Hc Hadd]]]]]]] | [Hs [Ha [Hh [Hc Hadd]]]]].
-      * left. exists ((false, g) :: above), g0, I. subst rest. cbn [app map add_all snd]. rewrite E.
+      left. split; [reflexivity|]. exists [], g, cur'. cbn [app map add_all]. rewrite E. cbn [add_all]. repeat split; auto.
+    + apply IH in H. destruct H as [[Hf [above [g0 [I [Hs [Ha [Hh [Hc Hadd]]]]]]]] | [Hf [Hs [Ha [Hh [Hc Hadd]]]]]].
+      * left. split; [exact Hf|]. exists ((false, g) :: above), g0, I. subst rest. cbn [app map add_all snd]. rewrite E.
         repeat split; auto.
       * right. cbn [map add_all snd]. rewrite E. repeat split; auto.
 Qed.
@@ -1197,6 +1206,7 @@ Section Basic.
   Variable h : heuristic.
   Variable rf : bool.
   Variable two : bool.
+  Variable sx : bool.
   Variable st0 : store.
   Hypothesis WF0 : WF c st0.
   Hypothesis OK0 : ac_ok st0 ac.
@@ -1257,13 +1267,13 @@ Section Basic.
     induction 1 as [|[b g] l Hb _ IH]; [reflexivity|]. cbn [filter fst] in *. rewrite Hb. exact IH.
   Qed.
 
-  Lemma unwind_inv0 st s1 ngs stk hist cur :
-    inv0 st s1 -> unwind (g_store s1) (g_stack s1) (g_hist s1) (g_cur s1) = Some (ngs, stk, hist, cur) ->
+  Lemma unwind_inv0 st s1 ngs stk hist cur found :
+    inv0 st s1 -> unwind (g_store s1) (g_stack s1) (g_hist s1) (g_cur s1) = Some (ngs, stk, hist, cur, found) ->
     inv0 st (mkNG cur ngs stk hist false (g_choice s1) (g_out s1) (g_draws s1)).
   Proof.
     intros [W E C Hh S Y B BL D O] H.
     apply unwind_spec in H.
-    destruct H as [[above [g [I [Hs [Ha [Hhist [Hc Hadd]]]]]]] | [Hs [Ha [Hhist [Hc Hadd]]]]].
+    destruct H as [[_ [above [g [I [Hs [Ha [Hhist [Hc Hadd]]]]]]]] | [_ [Hs [Ha [Hhist [Hc Hadd]]]]]].
     - destruct (add_all_ok _ _ _ B Hadd) as [B' [D' L']].
       rewrite Hhist in Hh. inversion Hh as [|? ? HI Hh']; subst.
       constructor; cbn [g_cur g_hist g_stack g_store g_out]; auto; try congruence.
@@ -1275,15 +1285,27 @@ Section Basic.
       rewrite (filter_fst_false _ Ha) in Y. cbn [filter length]. exact Y.
   Qed.
 
-  Lemma inv0_phase2 st s1 s2 : inv0 st s1 -> phase2 s1 = P2Go s2 -> inv0 st s2.
+  Lemma inv0_phase2 st s1 s2 : inv0 st s1 -> phase2 sx s1 = P2Go s2 -> inv0 st s2.
   Proof.
     intros I H. unfold phase2 in H. destruct (g_backtrack s1); [|inversion H; subst; exact I].
     destruct (g_stack s1) eqn:Es; [discriminate H|]. rewrite <- Es in H.
-    destruct (unwind _ _ _ _) as [[[[ngs stk] hist] cur]|] eqn:U; [|discriminate H].
-    inversion H; subst s2. apply (unwind_inv0 st s1 _ _ _ _ I U).
+    destruct (unwind _ _ _ _) as [[[[[ngs stk] hist] cur] found]|] eqn:U; [|discriminate H].
+    destruct (sx && negb found); [discriminate H|].
+    inversion H; subst s2. apply (unwind_inv0 st s1 _ _ _ _ _ I U).
   Qed.
 
-  Lemma inv0_no_panic st s1 : inv0 st s1 -> phase2 s1 <> P2Panic.
+  Lemma inv0_phase2_break st s1 sb : inv0 st s1 -> phase2 sx s1 = P2Break sb -> inv0 st sb /\ g_stack sb = [].
+  Proof.
+    intros I H. unfold phase2 in H. destruct (g_backtrack s1); [|discriminate H].
+    destruct (g_stack s1) eqn:Es; [inversion H; subst; auto|]. rewrite <- Es in H.
+    destruct (unwind _ _ _ _) as [[[[[ngs stk] hist] cur] found]|] eqn:U; [|discriminate H].
+    destruct (sx && negb found) eqn:Ex; [|discriminate H].
+    inversion H; subst sb. split; [apply (unwind_inv0 st s1 _ _ _ _ _ I U)|].
+    apply andb_true_iff in Ex. destruct Ex as [_ Ef]. apply negb_true_iff in Ef. subst found.
+    apply unwind_spec in U. destruct U as [[Z _]|[_ [Hs _]]]; [discriminate Z|exact Hs].
+  Qed.
+
+  Lemma inv0_no_panic st s1 : inv0 st s1 -> phase2 sx s1 <> P2Panic.
   Proof.
     intros [W E C Hh S Y B BL D O] H. unfold phase2 in H. destruct (g_backtrack s1); [|discriminate H].
     destruct (g_stack s1) eqn:Es; [discriminate H|]. rewrite <- Es in H, S, Y.
@@ -1291,7 +1313,7 @@ Section Basic.
     - eapply Forall_impl; [|exact S]. intros f Lf. cbv beta in *.
       rewrite BL, <- Lf. apply ng_len_le_length.
     - lia.
-    - rewrite U in H. destruct r as [[[ngs stk] hist] cur]. discriminate H.
+    - rewrite U in H. destruct r as [[[[ngs stk] hist] cur] found]. destruct (sx && negb found); discriminate H.
   Qed.
 
   Lemma closure_to_inv0 st s2 s3 upd : inv0 st s2 -> closure_to s2 s3 upd -> inv0 st s3.
@@ -1371,21 +1393,18 @@ Section Basic.
 
   (** one step *)
   Lemma inv0_step st s r :
-    inv0 st s -> ng_step c ac h rf two st s = Some r ->
+    inv0 st s -> ng_step c ac h rf two sx st s = Some r ->
     match r with
     | Continue st' s' => inv0 st' s' /\ extends st st'
-    | Break st' s' => inv0 st' s' /\ st' = st /\ g_backtrack s' = true /\ g_stack s' = []
+    | Break st' s' => inv0 st' s' /\ st' = st /\ g_stack s' = []
     | Panic => False
     end.
   Proof.
     intros I H. rewrite ng_step_eq in H.
     destruct (phase1 c h rf st s) as [s1|] eqn:P1; [|discriminate H].
     pose proof (inv0_phase1 st s s1 I P1) as I1.
-    destruct (phase2 s1) as [| |s2] eqn:P2.
-    - inversion H; subst r. split; [exact I1|]. split; [reflexivity|].
-      unfold phase2 in P2. destruct (g_backtrack s1); [|discriminate P2]. split; [reflexivity|].
-      destruct (g_stack s1); [reflexivity|].
-      destruct (unwind _ _ _ _) as [[[[? ?] ?] ?]|]; discriminate P2.
+    destruct (phase2 sx s1) as [sb| |s2] eqn:P2.
+    - inversion H; subst r. destruct (inv0_phase2_break st s1 sb I1 P2) as [Ib Sb]. auto.
     - exfalso. exact (inv0_no_panic st s1 I1 P2).
     - pose proof (inv0_phase2 st s1 s2 I1 P2) as I2.
       apply phase3_cases in H.
@@ -1393,11 +1412,11 @@ Section Basic.
   Qed.
 
   Lemma inv0_loop : forall fuel st s st' s',
-    inv0 st s -> ng_loop c ac h rf two fuel st s = Some (st', s') ->
-    inv0 st' s' /\ extends st st' /\ g_backtrack s' = true /\ g_stack s' = [].
+    inv0 st s -> ng_loop c ac h rf two sx fuel st s = Some (st', s') ->
+    inv0 st' s' /\ extends st st' /\ g_stack s' = [].
   Proof.
     induction fuel as [|f IH]; intros st s st' s' I H; [discriminate H|].
-    cbn [ng_loop] in H. destruct (ng_step c ac h rf two st s) as [r|] eqn:S; [|discriminate H].
+    cbn [ng_loop] in H. destruct (ng_step c ac h rf two sx st s) as [r|] eqn:S; [|discriminate H].
     pose proof (inv0_step st s r I S) as K. destruct r as [st1 s1|st1 s1|].
     - destruct K as [I1 E1]. destruct (IH st1 s1 st' s' I1 H) as (I' & E' & F').
       split; [exact I'|]. split; [eapply extends_trans; eauto|exact F'].
@@ -1419,24 +1438,24 @@ Section Basic.
 End Basic.
 
 (** states reachable by the loop *)
-Inductive ng_reach (c : cfg) (ac : list N) (h : heuristic) (rf two : bool)
+Inductive ng_reach (c : cfg) (ac : list N) (h : heuristic) (rf two sx : bool)
   : store -> ngstate -> store -> ngstate -> Prop :=
-| reach_refl st s : ng_reach c ac h rf two st s st s
+| reach_refl st s : ng_reach c ac h rf two sx st s st s
 | reach_step st s st1 s1 st2 s2 :
-    ng_reach c ac h rf two st s st1 s1 -> ng_step c ac h rf two st1 s1 = Some (Continue st2 s2) ->
-    ng_reach c ac h rf two st s st2 s2.
+    ng_reach c ac h rf two sx st s st1 s1 -> ng_step c ac h rf two sx st1 s1 = Some (Continue st2 s2) ->
+    ng_reach c ac h rf two sx st s st2 s2.
 
-Lemma inv0_reach c ac h rf two st0 (WF0 : WF c st0) (OK0 : ac_ok st0 ac) st s st' s' :
-  inv0 c ac two st0 st s -> ng_reach c ac h rf two st s st' s' -> inv0 c ac two st0 st' s'.
+Lemma inv0_reach c ac h rf two sx st0 (WF0 : WF c st0) (OK0 : ac_ok st0 ac) st s st' s' :
+  inv0 c ac two st0 st s -> ng_reach c ac h rf two sx st s st' s' -> inv0 c ac two st0 st' s'.
 Proof.
   intros I R. induction R as [|st s st1 s1 st2 s2 R IH S]; [exact I|].
-  apply (inv0_step c ac h rf two st0 WF0 OK0 st1 s1 _ (IH I) S).
+  apply (inv0_step c ac h rf two sx st0 WF0 OK0 st1 s1 _ (IH I) S).
 Qed.
 
 (** 1. soundness: everything emitted is two-valued and is a two-valued model, respectively a
     stable model (no assumption on the heuristic) *)
-Theorem ng_sound c ac h rf two budget st draws st' l rest :
-  WF c st -> ac_ok st ac -> nogood_search c ac h rf two budget st draws = Some (st', l, rest) ->
+Theorem ng_sound c ac h rf two sx budget st draws st' l rest :
+  WF c st -> ac_ok st ac -> nogood_search c ac h rf two sx budget st draws = Some (st', l, rest) ->
   WF c st' /\ extends st st' /\
   forall v, In v l ->
     length v = length ac /\ Forall (fun x => is_tv x = true) v /\
@@ -1446,7 +1465,7 @@ Proof.
   apply obind_inv in H. destruct H as ([s1 g] & G & H).
   apply obind_inv in H. destruct H as ([s2 fin] & L & H). inversion H; subst st' l rest. clear H.
   pose proof (inv0_init c ac two st W OK s1 g draws G) as I1.
-  destruct (inv0_loop c ac h rf two st W OK budget s1 _ s2 fin I1 L) as (I2 & E2 & _).
+  destruct (inv0_loop c ac h rf two sx st W OK budget s1 _ s2 fin I1 L) as (I2 & E2 & _).
   destruct (grounded_exact c st ac s1 g W OK G) as (_ & E1 & _).
   split; [exact (i_wf _ _ _ _ _ _ I2)|]. split; [exact (i_ext _ _ _ _ _ _ I2)|].
   intros v Hv. apply in_rev in Hv.
@@ -1455,17 +1474,17 @@ Qed.
 
 (** 2. the two stacks stay synchronous and every nogood fits into the store: from a state the
     loop can reach, a step never panics (no assumption on the heuristic is needed) *)
-Theorem ng_no_panic c ac h rf two st draws s1 g st' s' :
+Theorem ng_no_panic c ac h rf two sx st draws s1 g st' s' :
   WF c st -> ac_ok st ac -> grounded c st ac = Some (s1, g) ->
-  ng_reach c ac h rf two s1 (ng_init ac g draws) st' s' ->
-  ng_step c ac h rf two st' s' <> Some Panic /\
+  ng_reach c ac h rf two sx s1 (ng_init ac g draws) st' s' ->
+  ng_step c ac h rf two sx st' s' <> Some Panic /\
   length (filter fst (g_stack s')) = length (g_hist s') /\
   Forall (fun f => (ng_len (snd f) <= length (buckets (g_store s')))%nat) (g_stack s').
 Proof.
   intros W OK G R.
-  pose proof (inv0_reach c ac h rf two st W OK _ _ _ _ (inv0_init c ac two st W OK s1 g draws G) R) as I.
+  pose proof (inv0_reach c ac h rf two sx st W OK _ _ _ _ (inv0_init c ac two st W OK s1 g draws G) R) as I.
   split; [|split].
-  - intros S. exact (inv0_step c ac h rf two st W OK st' s' _ I S).
+  - intros S. exact (inv0_step c ac h rf two sx st W OK st' s' _ I S).
   - exact (i_sync _ _ _ _ _ _ I).
   - pose proof (i_stack _ _ _ _ _ _ I) as S. pose proof (i_blen _ _ _ _ _ _ I) as BL.
     eapply Forall_impl; [|exact S]. intros f Lf. cbv beta in *.
@@ -1665,6 +1684,7 @@ Section Strong.
   Variable h : heuristic.
   Variable rf : bool.
   Variable two : bool.
+  Variable sx : bool.
   Variable st0 : store.
   Hypothesis WF0 : WF c st0.
   Hypothesis OK0 : ac_ok st0 ac.
@@ -1758,7 +1778,7 @@ Section Strong.
   Qed.
 
   Lemma inv1_phase2 st s1 s2 :
-    inv1 st s1 -> g_choice s1 = false -> phase2 s1 = P2Go s2 ->
+    inv1 st s1 -> g_choice s1 = false -> phase2 sx s1 = P2Go s2 ->
     mid1 st s2 /\ g_out s2 = g_out s1 /\
     ((g_backtrack s1 = false /\ s2 = s1) \/
      (g_backtrack s1 = true /\
@@ -1767,19 +1787,20 @@ Section Strong.
       (mu1 (length ac) (stored (g_store s2)) <= mu1 (length ac) (stored (g_store s1)))%nat /\
       g_stack s2 = [] /\ exists x, In x (stored (g_store s2)) /\ ng_sub x (ngv (g_cur s2)))).
   Proof.
-    intros I Ech H. pose proof (inv0_phase2 c ac two st0 st s1 s2 (j0 _ _ I) H) as I02.
+    intros I Ech H. pose proof (inv0_phase2 c ac two sx st0 st s1 s2 (j0 _ _ I) H) as I02.
     unfold phase2 in H. destruct (g_backtrack s1) eqn:Ebt.
     2:{ inversion H; subst s2. split; [|split; [reflexivity|left; auto]].
         destruct I as [I0 Stk Sl K2 Ch]. constructor; auto. apply CM_clean. apply K2. exact Ebt. }
     destruct (g_stack s1) as [|f0 stk0] eqn:Es; [discriminate H|]. rewrite <- Es in H.
-    destruct (unwind _ _ _ _) as [[[[ngs stk] hist] cur]|] eqn:Un; [|discriminate H].
+    destruct (unwind _ _ _ _) as [[[[[ngs stk] hist] cur] found]|] eqn:Un; [|discriminate H].
+    destruct (sx && negb found); [discriminate H|].
     inversion H; subst s2; clear H. split; [|split; [reflexivity|right]].
     - (* the state before the closure *)
       destruct I as [I0 Stk Sl K2 Ch].
       pose proof (i_bok _ _ _ _ _ _ I0) as B. pose proof (i_dup _ _ _ _ _ _ I0) as D.
       pose proof (i_stack _ _ _ _ _ _ I0) as SL.
       apply unwind_spec in Un.
-      destruct Un as [[above [g [I [Hs [Ha [Hhist [Hc Hadd]]]]]]] | [Hs [Ha [Hhist [Hc Hadd]]]]].
+      destruct Un as [[_ [above [g [I [Hs [Ha [Hhist [Hc Hadd]]]]]]]] | [_ [Hs [Ha [Hhist [Hc Hadd]]]]]].
       + subst cur. destruct (add_all_equiv_mode _ _ _ B D Hadd) as [A1 [B1 C1]].
         rewrite Hs, Hhist in Stk. destruct (stk_inv_split _ _ _ _ _ _ Ha Stk) as [Sab [_ [top' Sg]]].
         inversion Sg as [| |? ? y b ? ? ? _ HI Hy Hb Hl HK Hrest]; subst.
@@ -1828,7 +1849,7 @@ Section Strong.
       pose proof (i_bok _ _ _ _ _ _ I0) as B. pose proof (i_dup _ _ _ _ _ _ I0) as D.
       pose proof (i_stack _ _ _ _ _ _ I0) as SL.
       apply unwind_spec in Un. cbn [g_store g_stack g_cur].
-      destruct Un as [[above [g [I [Hs [Ha [Hhist [Hc Hadd]]]]]]] | [Hs [Ha [Hhist [Hc Hadd]]]]].
+      destruct Un as [[_ [above [g [I [Hs [Ha [Hhist [Hc Hadd]]]]]]]] | [_ [Hs [Ha [Hhist [Hc Hadd]]]]]].
       + left. split; [reflexivity|].
         destruct (add_all_equiv_mode _ _ _ B D Hadd) as [A1 [B1 C1]].
         rewrite Hs, Hhist in Stk. destruct (stk_inv_split _ _ _ _ _ _ Ha Stk) as [Sab [_ [top' Sg]]].
@@ -1952,12 +1973,12 @@ Section Strong.
 
   (** one step keeps the strong invariant *)
   Lemma inv1_step st s st' s' :
-    inv1 st s -> ng_step c ac h rf two st s = Some (Continue st' s') -> inv1 st' s'.
+    inv1 st s -> ng_step c ac h rf two sx st s = Some (Continue st' s') -> inv1 st' s'.
   Proof.
     intros I H. rewrite ng_step_eq in H.
     destruct (phase1 c h rf st s) as [s1|] eqn:P1; [|discriminate H].
     destruct (inv1_phase1 st s s1 I P1) as (I1 & Ch1 & _).
-    destruct (phase2 s1) as [| |s2] eqn:P2; try discriminate H.
+    destruct (phase2 sx s1) as [sb| |s2] eqn:P2; try discriminate H.
     destruct (inv1_phase2 st s1 s2 I1 Ch1 P2) as (M & _).
     apply phase3_cases in H. destruct (inv1_phase3 st s2 _ M H) as (st'' & s'' & Er & I' & _).
     inversion Er; subst. exact I'.
@@ -2085,7 +2106,7 @@ Section Strong.
   Lemma ng_loop_total : forall fuel st s r,
     inv1 st s -> rank st s r -> (r < fuel)%nat ->
     (h = HRand -> (2 * fuel <= length (g_draws s))%nat) ->
-    exists st' s', ng_loop c ac h rf two fuel st s = Some (st', s').
+    exists st' s', ng_loop c ac h rf two sx fuel st s = Some (st', s').
   Proof.
     induction fuel as [|f IH]; intros st s r I [k [Pk Rk]] Hr Hd; [lia|].
     cbn [ng_loop]. rewrite ng_step_eq.
@@ -2103,14 +2124,15 @@ Section Strong.
       - exists s. split; [reflexivity|]. intros Eh. specialize (Hd Eh). lia. }
     destruct P1 as [s1 [P1 Hd1]]. rewrite P1.
     destruct (inv1_phase1 st s s1 I P1) as (I1 & Ch1 & Es1 & _ & Hnc & Hc).
-    destruct (phase2 s1) as [| |s2] eqn:P2.
+    destruct (phase2 sx s1) as [sb| |s2] eqn:P2.
     - eauto.
-    - exfalso. exact (inv0_no_panic c ac two st0 st s1 (j0 _ _ I1) P2).
+    - exfalso. exact (inv0_no_panic c ac two sx st0 st s1 (j0 _ _ I1) P2).
     - destruct (inv1_phase2 st s1 s2 I1 Ch1 P2) as (M & _ & Hm).
       assert (Ed2 : g_draws s2 = g_draws s1).
       { unfold phase2 in P2. destruct (g_backtrack s1); [|inversion P2; reflexivity].
         destruct (g_stack s1); [discriminate P2|].
-        destruct (unwind _ _ _ _) as [[[[? ?] ?] ?]|]; inversion P2; reflexivity. }
+        destruct (unwind _ _ _ _) as [[[[[? ?] ?] ?] found]|]; [|discriminate P2].
+        destruct (sx && negb found); inversion P2; reflexivity. }
       destruct (phase3_total st s2 M) as [res P3]. rewrite P3.
       pose proof (phase3_cases c ac two st s2 res P3) as P3'.
       destruct (inv1_phase3 st s2 res M P3') as (st' & s' & -> & I' & Es').
@@ -2371,7 +2393,7 @@ Section Strong.
   Qed.
 
   Lemma inv2_phase2 st s1 s2 :
-    inv2 st s1 -> g_choice s1 = false -> phase2 s1 = P2Go s2 -> mid2 st s2.
+    inv2 st s1 -> g_choice s1 = false -> phase2 sx s1 = P2Go s2 -> mid2 st s2.
   Proof.
     intros Q Ech H. destruct (inv1_phase2 st s1 s2 (q1 _ _ Q) Ech H) as (M & _ & _).
     unfold phase2 in H. destruct (g_backtrack s1) eqn:Ebt.
@@ -2380,13 +2402,14 @@ Section Strong.
           destruct K as [[_ K]|K]; auto.
         - intros v Hv. destruct (Bl v Hv) as [K|[K _]]; [exact K|congruence]. }
     destruct (g_stack s1) as [|f0 stk0] eqn:Es; [discriminate H|]. rewrite <- Es in H. clear Es.
-    destruct (unwind _ _ _ _) as [[[[ngs stk] hist] cur]|] eqn:Un; [|discriminate H].
+    destruct (unwind _ _ _ _) as [[[[[ngs stk] hist] cur] found]|] eqn:Un; [|discriminate H].
+    destruct (sx && negb found); [discriminate H|].
     inversion H; subst s2; clear H.
     destruct Q as [I Sem HSem Live ND Bl]. pose proof (j0 _ _ I) as I0. rewrite Ebt in Live, Bl.
     pose proof (i_bok _ _ _ _ _ _ I0) as B. pose proof (i_dup _ _ _ _ _ _ I0) as D.
     pose proof (j_stk _ _ I) as Stk.
     apply unwind_spec in Un.
-    destruct Un as [[above [g [I' [Hs [Ha [Hhist [Hc Hadd]]]]]]] | [Hs [Ha [Hhist [Hc Hadd]]]]].
+    destruct Un as [[_ [above [g [I' [Hs [Ha [Hhist [Hc Hadd]]]]]]]] | [_ [Hs [Ha [Hhist [Hc Hadd]]]]]].
     - subst cur. destruct (add_all_equiv_mode _ _ _ B D Hadd) as [A1 [B1 C1]].
       rewrite Hs, Hhist in Stk. destruct (stk_inv_split _ _ _ _ _ _ Ha Stk) as [Sab [_ [top' Sg]]].
       inversion Sg as [| |? ? y b ? ? ? _ HI Hy Hb Hl HK Hrest]; subst.
@@ -2587,43 +2610,59 @@ Section Strong.
   Qed.
 
   Lemma inv2_step st s st' s' :
-    inv2 st s -> ng_step c ac h rf two st s = Some (Continue st' s') -> inv2 st' s'.
+    inv2 st s -> ng_step c ac h rf two sx st s = Some (Continue st' s') -> inv2 st' s'.
   Proof.
     intros Q H. rewrite ng_step_eq in H.
     destruct (phase1 c h rf st s) as [s1|] eqn:P1; [|discriminate H].
     pose proof (inv2_phase1 st s s1 Q P1) as Q1.
     destruct (inv1_phase1 st s s1 (q1 _ _ Q) P1) as (_ & Ch1 & _).
-    destruct (phase2 s1) as [| |s2] eqn:P2; try discriminate H.
+    destruct (phase2 sx s1) as [sb| |s2] eqn:P2; try discriminate H.
     pose proof (inv2_phase2 st s1 s2 Q1 Ch1 P2) as R.
     apply phase3_cases in H. destruct (inv2_phase3 st s2 _ R H) as (st'' & s'' & Er & Q').
     inversion Er; subst. exact Q'.
   Qed.
 
+  (** the loop exit: the stack is empty, or (repaired loop) holds no choice entry: no model is
+      kept alive by a choice frame, so all have been emitted *)
+  Lemma inv2_phase2_break st s1 sb :
+    inv2 st s1 -> phase2 sx s1 = P2Break sb ->
+    NoDup (map interp_of (g_out sb)) /\ forall m, is_model m -> In m (map interp_of (g_out sb)).
+  Proof.
+    intros Q P2. unfold phase2 in P2. destruct (g_backtrack s1) eqn:Ebt; [|discriminate P2].
+    destruct (g_stack s1) as [|f0 stk0] eqn:Es.
+    - inversion P2; subst sb. destruct Q as [I Sem HSem Live ND Bl]. split; [exact ND|].
+      intros m Hm. destruct (Live m Hm) as [K|[_ K]]; [exact K|exfalso].
+      destruct K as [[K _]|K]; [congruence|]. rewrite Es in K. destruct K.
+    - rewrite <- Es in P2. clear Es.
+      destruct (unwind _ _ _ _) as [[[[[ngs stk] hist] cur] found]|] eqn:Un; [|discriminate P2].
+      destruct (sx && negb found) eqn:Ex; [|discriminate P2].
+      inversion P2; subst sb. cbn [g_out]. destruct Q as [I Sem HSem Live ND Bl]. split; [exact ND|].
+      apply andb_true_iff in Ex. destruct Ex as [_ Ef]. apply negb_true_iff in Ef. subst found.
+      apply unwind_spec in Un. destruct Un as [[Z _]|[_ [_ [Ha _]]]]; [discriminate Z|].
+      intros m Hm. destruct (Live m Hm) as [K|[_ K]]; [exact K|exfalso].
+      destruct K as [[K _]|K]; [congruence|]. exact (live_stk_nochoice m _ _ Ha K).
+  Qed.
+
   Lemma inv2_break st s st' s' :
-    inv2 st s -> ng_step c ac h rf two st s = Some (Break st' s') ->
+    inv2 st s -> ng_step c ac h rf two sx st s = Some (Break st' s') ->
     NoDup (map interp_of (g_out s')) /\ forall m, is_model m -> In m (map interp_of (g_out s')).
   Proof.
     intros Q H. rewrite ng_step_eq in H.
     destruct (phase1 c h rf st s) as [s1|] eqn:P1; [|discriminate H].
     pose proof (inv2_phase1 st s s1 Q P1) as Q1.
-    destruct (phase2 s1) as [| |s2] eqn:P2; try discriminate H.
+    destruct (phase2 sx s1) as [sb| |s2] eqn:P2; try discriminate H.
     2:{ apply phase3_cases in H. destruct (inv2_phase3 st s2 _ ltac:(eapply inv2_phase2; eauto;
           destruct (inv1_phase1 st s s1 (q1 _ _ Q) P1) as (_ & Ch1 & _); exact Ch1) H) as (? & ? & Er & _).
         discriminate Er. }
-    inversion H; subst st' s'. destruct Q1 as [I Sem HSem Live ND Bl]. split; [exact ND|].
-    intros m Hm. destruct (Live m Hm) as [K|[_ K]]; [exact K|exfalso].
-    unfold phase2 in P2. destruct (g_backtrack s1); [|discriminate P2].
-    destruct (g_stack s1) eqn:Es.
-    - destruct K as [[K _]|K]; [discriminate K|destruct K].
-    - destruct (unwind _ _ _ _) as [[[[? ?] ?] ?]|]; discriminate P2.
+    inversion H; subst st' s'. apply (inv2_phase2_break st s1 sb Q1 P2).
   Qed.
 
   Lemma inv2_loop : forall fuel st s st' s',
-    inv2 st s -> ng_loop c ac h rf two fuel st s = Some (st', s') ->
+    inv2 st s -> ng_loop c ac h rf two sx fuel st s = Some (st', s') ->
     NoDup (map interp_of (g_out s')) /\ forall m, is_model m -> In m (map interp_of (g_out s')).
   Proof.
     induction fuel as [|f IH]; intros st s st' s' Q H; [discriminate H|].
-    cbn [ng_loop] in H. destruct (ng_step c ac h rf two st s) as [[st1 s1|st1 s1|]|] eqn:S; try discriminate H.
+    cbn [ng_loop] in H. destruct (ng_step c ac h rf two sx st s) as [[st1 s1|st1 s1|]|] eqn:S; try discriminate H.
     - apply (IH st1 s1 st' s' (inv2_step st s st1 s1 Q S) H).
     - inversion H; subst. apply (inv2_break st s st' s' Q S).
   Qed.
@@ -2645,12 +2684,12 @@ Section Strong.
   Qed.
 End Strong.
 
-Lemma ng_loop_mono c ac h rf two : forall f st s res,
-  ng_loop c ac h rf two f st s = Some res -> forall f', (f <= f')%nat -> ng_loop c ac h rf two f' st s = Some res.
+Lemma ng_loop_mono c ac h rf two sx : forall f st s res,
+  ng_loop c ac h rf two sx f st s = Some res -> forall f', (f <= f')%nat -> ng_loop c ac h rf two sx f' st s = Some res.
 Proof.
   induction f as [|f IH]; intros st s res H f' L; [discriminate H|].
   destruct f' as [|f']; [lia|]. cbn [ng_loop] in *.
-  destruct (ng_step c ac h rf two st s) as [[st1 s1|st1 s1|]|]; try discriminate H; try exact H.
+  destruct (ng_step c ac h rf two sx st s) as [[st1 s1|st1 s1|]|]; try discriminate H; try exact H.
   apply (IH _ _ _ H). lia.
 Qed.
 
@@ -2658,13 +2697,13 @@ Qed.
     between two backtracks over a choice at most 3n+5 steps are made *)
 Definition ng_bound (n : nat) : nat := (3 ^ n + 1) * (3 * n + 5).
 
-(** 3. termination for every admissible heuristic, within [ng_bound (length ac)] steps; the
-    random heuristic needs two draws per step at most *)
-Theorem ng_terminates c ac h rf two budget st draws :
+(** 3. termination for every admissible heuristic, within [ng_bound (length ac)] steps, for both
+    forms of the loop; the random heuristic needs two draws per step at most *)
+Theorem ng_terminates c ac h rf two sx budget st draws :
   admissible c h rf -> ac <> [] -> WF c st -> ac_ok st ac ->
   (ng_bound (length ac) <= budget)%nat ->
   (h = HRand -> (2 * ng_bound (length ac) <= length draws)%nat) ->
-  nogood_search c ac h rf two budget st draws <> None.
+  nogood_search c ac h rf two sx budget st draws <> None.
 Proof.
   intros ADM NE W OK HB HD. unfold nogood_search.
   destruct (grounded_total c st ac W OK) as (s1 & g & G). rewrite G. cbn [obind].
@@ -2674,22 +2713,19 @@ Proof.
     - apply psi_le_max; try reflexivity. destruct (grounded_exact c st ac s1 g W OK G) as (_ & _ & L & _). exact L.
     - pose proof (mu1_le (length ac) (stored (g_store (ng_init ac g draws)))) as M.
       apply Nat.add_le_mono_r. apply Nat.mul_le_mono_r. exact M. }
-  destruct (ng_loop_total c ac h rf two st W OK ADM NE (ng_bound (length ac)) s1 _ _ I1 R) as (st' & s' & L).
+  destruct (ng_loop_total c ac h rf two sx st W OK ADM NE (ng_bound (length ac)) s1 _ _ I1 R) as (st' & s' & L).
   - unfold ng_bound, Wd. lia.
   - exact HD.
-  - pose proof (ng_loop_mono c ac h rf two _ _ _ _ L budget HB) as L'. unfold ng_init in L'.
+  - pose proof (ng_loop_mono c ac h rf two sx _ _ _ _ L budget HB) as L'. unfold ng_init in L'.
     rewrite L'. cbn [obind]. discriminate.
 Qed.
 
 (* ------------------------------------------------------------------ *)
-(** * The empty framework: the loop never ends *)
+(** * The empty framework *)
 
-(** with no statement at all the interpretation [] is a two-valued fixpoint in every round: it
-    is emitted, its (empty) nogood is ignored by the store, the backtrack finds no choice and
-    the next round emits it again; the model returns [None] for every budget *)
 Lemma unwind_empty : forall stack : list (bool * ng),
   Forall (fun f : bool * ng => f = (false, [])) stack ->
-  unwind (ngs_new 0) stack [] [] = Some (ngs_new 0, [], [], []).
+  unwind (ngs_new 0) stack [] [] = Some (ngs_new 0, [], [], [], false).
 Proof.
   induction 1 as [|f stack Hf _ IH]; [reflexivity|]. subst f. cbn [unwind]. exact IH.
 Qed.
@@ -2699,34 +2735,41 @@ Lemma phase3_empty c two st stk out dr :
   Some (Continue st (mkNG [] (ngs_new 0) ((false, []) :: stk) [] true false ([] :: out) dr)).
 Proof. destruct two; vm_compute; reflexivity. Qed.
 
+Lemma grounded_empty c st : grounded c st [] = Some (st, []).
+Proof. vm_compute. reflexivity. Qed.
+
+(** ** the loop as it was ([stop_exhausted = false]): it never ends.
+    With no statement at all the interpretation [] is a two-valued fixpoint in every round: it
+    is emitted, its (empty) nogood is ignored by the store, the backtrack finds no choice and
+    the next round emits it again; the model returns [None] for every budget *)
 Lemma ng_loop_empty c h rf two st : forall fuel (stack : list (bool * ng)) bt out dr,
   Forall (fun f : bool * ng => f = (false, [])) stack -> (bt = true -> stack <> []) ->
-  ng_loop c [] h rf two fuel st (mkNG [] (ngs_new 0) stack [] bt false out dr) = None.
+  ng_loop c [] h rf two false fuel st (mkNG [] (ngs_new 0) stack [] bt false out dr) = None.
 Proof.
   induction fuel as [|f IH]; intros stack bt out dr Hs Hb; [reflexivity|].
-  cbn [ng_loop]. rewrite ng_step_eq. unfold phase1. cbn [g_choice]. unfold phase2. cbn [g_backtrack g_stack g_store g_hist g_cur g_choice g_out g_draws].
+  cbn [ng_loop]. rewrite ng_step_eq. unfold phase1. cbn [g_choice]. unfold phase2.
+  cbn [g_backtrack g_stack g_store g_hist g_cur g_choice g_out g_draws].
   destruct bt.
   - destruct stack as [|f0 stack]; [exfalso; now apply Hb|].
-    rewrite (unwind_empty _ Hs). rewrite phase3_empty. apply IH; [repeat constructor|discriminate].
+    rewrite (unwind_empty _ Hs). cbn [andb]. rewrite phase3_empty. apply IH; [repeat constructor|discriminate].
   - rewrite phase3_empty. apply IH; [constructor; [reflexivity|exact Hs]|discriminate].
 Qed.
 
 Theorem ng_empty_adf_diverges c h rf two budget st draws :
-  nogood_search c [] h rf two budget st draws = None.
+  nogood_search c [] h rf two false budget st draws = None.
 Proof.
-  unfold nogood_search.
-  assert (G : grounded c st [] = Some (st, [])) by (vm_compute; reflexivity).
-  rewrite G. cbn [obind length].
-  change (match ng_loop c [] h rf two budget st (mkNG [] (ngs_new 0) [] [] false false [] draws) with
+  unfold nogood_search. rewrite grounded_empty. cbn [obind length].
+  change (match ng_loop c [] h rf two false budget st (mkNG [] (ngs_new 0) [] [] false false [] draws) with
           | Some (s2, fin) => Some (s2, rev (g_out fin), g_draws fin) | None => None end = None).
   rewrite (ng_loop_empty c h rf two st budget [] false [] draws); [reflexivity|constructor|discriminate].
 Qed.
 
-(** hence the termination statement without the side condition [ac <> []] is false *)
+(** hence, for the loop as it was, the termination statement without the side condition
+    [ac <> []] is false: this is why the loop was repaired *)
 Theorem ng_terminates_refuted :
   ~ (forall c ac h rf two budget st draws,
        admissible c h rf -> WF c st -> ac_ok st ac -> (ng_bound (length ac) <= budget)%nat ->
-       nogood_search c ac h rf two budget st draws <> None).
+       nogood_search c ac h rf two false budget st draws <> None).
 Proof.
   intros H.
   apply (H cfg_default [] HSimple true true (ng_bound 0) (init cfg_default) []).
@@ -2735,6 +2778,57 @@ Proof.
   - split; constructor.
   - apply le_n.
   - apply ng_empty_adf_diverges.
+Qed.
+
+(** ** the repaired loop ([stop_exhausted = true]): two rounds.  The first emits [], the second
+    backtracks, finds no choice entry and ends *)
+Lemma ng_loop_empty_repaired c h rf two st draws fuel :
+  ng_loop c [] h rf two true (S (S fuel)) st (mkNG [] (ngs_new 0) [] [] false false [] draws) =
+  Some (st, mkNG [] (ngs_new 0) [] [] false false [[]] draws).
+Proof.
+  cbn [ng_loop]. rewrite ng_step_eq. unfold phase1. cbn [g_choice]. unfold phase2.
+  cbn [g_backtrack g_stack g_store g_hist g_cur g_choice g_out g_draws].
+  rewrite phase3_empty.
+  rewrite ng_step_eq. unfold phase1. cbn [g_choice]. unfold phase2.
+  cbn [g_backtrack g_stack g_store g_hist g_cur g_choice g_out g_draws].
+  reflexivity.
+Qed.
+
+(** the exact answer on the empty framework: one model, the empty interpretation, once; the
+    diagram store and the draw stream are untouched *)
+Theorem ng_empty_adf_repaired c h rf two budget st draws :
+  (2 <= budget)%nat -> nogood_search c [] h rf two true budget st draws = Some (st, [[]], draws).
+Proof.
+  intros HB. destruct budget as [|[|f]]; try lia.
+  unfold nogood_search. rewrite grounded_empty. cbn [obind length].
+  change (match ng_loop c [] h rf two true (S (S f)) st (mkNG [] (ngs_new 0) [] [] false false [] draws) with
+          | Some (s2, fin) => Some (s2, rev (g_out fin), g_draws fin) | None => None end = Some (st, [[]], draws)).
+  rewrite ng_loop_empty_repaired. reflexivity.
+Qed.
+
+(** whatever the budget, an answer on the empty framework is that one *)
+Lemma ng_empty_adf_answer c h rf two budget st draws st' l rest :
+  nogood_search c [] h rf two true budget st draws = Some (st', l, rest) ->
+  st' = st /\ l = [[]] /\ rest = draws.
+Proof.
+  intros H. unfold nogood_search in H. rewrite grounded_empty in H. cbn [obind length] in H.
+  change (match ng_loop c [] h rf two true budget st (mkNG [] (ngs_new 0) [] [] false false [] draws) with
+          | Some (s2, fin) => Some (s2, rev (g_out fin), g_draws fin) | None => None end = Some (st', l, rest)) in H.
+  destruct (ng_loop c [] h rf two true budget st _) as [[s2 fin]|] eqn:L; [|discriminate H].
+  pose proof (ng_loop_mono _ _ _ _ _ _ _ _ _ _ L (S (S budget)) ltac:(lia)) as L2.
+  rewrite ng_loop_empty_repaired in L2. inversion L2; subst s2 fin. inversion H; subst. auto.
+Qed.
+
+(** termination of the repaired loop for every framework, the empty one included *)
+Theorem ng_terminates_repaired c ac h rf two budget st draws :
+  admissible c h rf -> WF c st -> ac_ok st ac -> (ng_bound (length ac) <= budget)%nat ->
+  (h = HRand -> (2 * ng_bound (length ac) <= length draws)%nat) ->
+  nogood_search c ac h rf two true budget st draws <> None.
+Proof.
+  intros ADM W OK HB HD. destruct ac as [|a0 ac0] eqn:Eac.
+  - rewrite ng_empty_adf_repaired; [discriminate|].
+    change (ng_bound (length (@nil N))) with 10%nat in HB. lia.
+  - rewrite <- Eac in *. apply ng_terminates; auto. rewrite Eac. discriminate.
 Qed.
 
 (* ------------------------------------------------------------------ *)
@@ -2749,50 +2843,80 @@ Proof.
   rewrite <- (Gamma_length _ _ _ C). apply abs_length.
 Qed.
 
-(** 4. every two-valued model / stable model is emitted, for every admissible heuristic *)
-Theorem ng_complete c ac h rf two budget st draws st' l rest :
+(** the empty framework has exactly one model, the empty interpretation *)
+Lemma empty_adf_model (two : bool) st v :
+  (if two then Model2 (abs st []) v else Stable (abs st []) v) -> v = [].
+Proof.
+  intros M. assert (M2 : Model2 (abs st []) v) by (destruct two; [exact M|apply M]).
+  destruct M2 as [C _]. unfold Complete, Gamma in C. cbn [abs map] in C. inversion C. reflexivity.
+Qed.
+
+(** 4. every two-valued model / stable model is emitted, for every admissible heuristic and for
+    both forms of the loop *)
+Theorem ng_complete c ac h rf two sx budget st draws st' l rest :
   admissible c h rf -> WF c st -> ac_ok st ac ->
-  nogood_search c ac h rf two budget st draws = Some (st', l, rest) ->
+  nogood_search c ac h rf two sx budget st draws = Some (st', l, rest) ->
   forall v, (if two then Model2 (abs st ac) v else Stable (abs st ac) v) -> In v (map interp_of l).
 Proof.
   intros ADM W OK H v Mv.
-  destruct ac as [|a0 ac0] eqn:Eac; [rewrite ng_empty_adf_diverges in H; discriminate H|]. rewrite <- Eac in *.
+  destruct ac as [|a0 ac0] eqn:Eac.
+  { destruct sx; [|rewrite ng_empty_adf_diverges in H; discriminate H].
+    destruct (ng_empty_adf_answer _ _ _ _ _ _ _ _ _ _ H) as (_ & -> & _).
+    rewrite (empty_adf_model two st v Mv). now left. }
+  rewrite <- Eac in *.
   assert (NE : ac <> []) by (rewrite Eac; discriminate).
   unfold nogood_search in H.
   apply obind_inv in H. destruct H as ([s1 g] & G & H).
   apply obind_inv in H. destruct H as ([s2 fin] & L & H). inversion H; subst st' l rest. clear H.
   pose proof (inv2_init c ac two st W OK s1 g draws G) as Q.
-  destruct (inv2_loop c ac h rf two st W OK ADM NE budget s1 _ s2 fin Q L) as [_ K].
+  destruct (inv2_loop c ac h rf two sx st W OK ADM NE budget s1 _ s2 fin Q L) as [_ K].
   rewrite map_rev. apply -> in_rev. apply K. apply (modelP_is_model c ac two st v W OK Mv).
 Qed.
 
 (** ... and nothing is emitted twice *)
-Theorem ng_nodup c ac h rf two budget st draws st' l rest :
+Theorem ng_nodup c ac h rf two sx budget st draws st' l rest :
   admissible c h rf -> WF c st -> ac_ok st ac ->
-  nogood_search c ac h rf two budget st draws = Some (st', l, rest) -> NoDup (map interp_of l).
+  nogood_search c ac h rf two sx budget st draws = Some (st', l, rest) -> NoDup (map interp_of l).
 Proof.
   intros ADM W OK H.
-  destruct ac as [|a0 ac0] eqn:Eac; [rewrite ng_empty_adf_diverges in H; discriminate H|]. rewrite <- Eac in *.
+  destruct ac as [|a0 ac0] eqn:Eac.
+  { destruct sx; [|rewrite ng_empty_adf_diverges in H; discriminate H].
+    destruct (ng_empty_adf_answer _ _ _ _ _ _ _ _ _ _ H) as (_ & -> & _).
+    cbn [map]. constructor; [intros []|constructor]. }
+  rewrite <- Eac in *.
   assert (NE : ac <> []) by (rewrite Eac; discriminate).
   unfold nogood_search in H.
   apply obind_inv in H. destruct H as ([s1 g] & G & H).
   apply obind_inv in H. destruct H as ([s2 fin] & L & H). inversion H; subst st' l rest. clear H.
   pose proof (inv2_init c ac two st W OK s1 g draws G) as Q.
-  destruct (inv2_loop c ac h rf two st W OK ADM NE budget s1 _ s2 fin Q L) as [ND _].
+  destruct (inv2_loop c ac h rf two sx st W OK ADM NE budget s1 _ s2 fin Q L) as [ND _].
   rewrite map_rev. apply NoDup_rev. exact ND.
 Qed.
 
 (** the emitted list is exactly the set of models *)
-Corollary ng_exact c ac h rf two budget st draws st' l rest :
+Corollary ng_exact c ac h rf two sx budget st draws st' l rest :
   admissible c h rf -> WF c st -> ac_ok st ac ->
-  nogood_search c ac h rf two budget st draws = Some (st', l, rest) ->
+  nogood_search c ac h rf two sx budget st draws = Some (st', l, rest) ->
   NoDup (map interp_of l) /\
   forall v, In v (map interp_of l) <-> (if two then Model2 (abs st ac) v else Stable (abs st ac) v).
 Proof.
   intros ADM W OK H. split; [eapply ng_nodup; eauto|]. intros v. split.
   - intros Hv. apply in_map_iff in Hv. destruct Hv as [w [<- Hw]].
-    destruct (ng_sound c ac h rf two budget st draws st' l rest W OK H) as (_ & _ & S). apply (S w Hw).
+    destruct (ng_sound c ac h rf two sx budget st draws st' l rest W OK H) as (_ & _ & S). apply (S w Hw).
   - eapply ng_complete; eauto.
+Qed.
+
+(** the repair does not change the set of models found (with possibly different heuristics,
+    budgets and draws on the two sides) *)
+Corollary ng_repair_same_models c ac two h1 rf1 b1 d1 h2 rf2 b2 d2 st s1 l1 r1 s2 l2 r2 :
+  admissible c h1 rf1 -> admissible c h2 rf2 -> WF c st -> ac_ok st ac ->
+  nogood_search c ac h1 rf1 two false b1 st d1 = Some (s1, l1, r1) ->
+  nogood_search c ac h2 rf2 two true b2 st d2 = Some (s2, l2, r2) ->
+  forall v, In v (map interp_of l1) <-> In v (map interp_of l2).
+Proof.
+  intros A1 A2 W OK H1 H2 v.
+  rewrite (proj2 (ng_exact _ _ _ _ _ _ _ _ _ _ _ _ A1 W OK H1) v).
+  rewrite (proj2 (ng_exact _ _ _ _ _ _ _ _ _ _ _ _ A2 W OK H2) v). reflexivity.
 Qed.
 
 (** all built-in heuristics, the random one in its repaired form *)
@@ -2806,76 +2930,113 @@ Proof.
   - apply static_admissible.
 Qed.
 
+(** all together, both loops, at least one statement *)
+Corollary ng_correct c ac h rf two sx budget st draws :
+  admissible c h rf -> ac <> [] -> WF c st -> ac_ok st ac ->
+  (ng_bound (length ac) <= budget)%nat ->
+  (h = HRand -> (2 * ng_bound (length ac) <= length draws)%nat) ->
+  exists st' l rest,
+    nogood_search c ac h rf two sx budget st draws = Some (st', l, rest) /\
+    WF c st' /\ extends st st' /\ NoDup (map interp_of l) /\
+    forall v, In v (map interp_of l) <-> (if two then Model2 (abs st ac) v else Stable (abs st ac) v).
+Proof.
+  intros ADM NE W OK HB HD.
+  destruct (nogood_search c ac h rf two sx budget st draws) as [[[st' l] rest]|] eqn:H.
+  - exists st', l, rest. split; [reflexivity|].
+    destruct (ng_sound c ac h rf two sx budget st draws st' l rest W OK H) as (W' & E' & _).
+    destruct (ng_exact c ac h rf two sx budget st draws st' l rest ADM W OK H) as [ND EX]. auto.
+  - exfalso. exact (ng_terminates c ac h rf two sx budget st draws ADM NE W OK HB HD H).
+Qed.
+
+(** the repaired loop: with an admissible heuristic, enough budget (and draws), the search
+    answers on EVERY framework, and its answer lists every model exactly once *)
+Corollary ng_correct_repaired c ac h rf two budget st draws :
+  admissible c h rf -> WF c st -> ac_ok st ac ->
+  (ng_bound (length ac) <= budget)%nat ->
+  (h = HRand -> (2 * ng_bound (length ac) <= length draws)%nat) ->
+  exists st' l rest,
+    nogood_search c ac h rf two true budget st draws = Some (st', l, rest) /\
+    WF c st' /\ extends st st' /\ NoDup (map interp_of l) /\
+    forall v, In v (map interp_of l) <-> (if two then Model2 (abs st ac) v else Stable (abs st ac) v).
+Proof.
+  intros ADM W OK HB HD.
+  destruct (nogood_search c ac h rf two true budget st draws) as [[[st' l] rest]|] eqn:H.
+  - exists st', l, rest. split; [reflexivity|].
+    destruct (ng_sound c ac h rf two true budget st draws st' l rest W OK H) as (W' & E' & _).
+    destruct (ng_exact c ac h rf two true budget st draws st' l rest ADM W OK H) as [ND EX]. auto.
+  - exfalso. exact (ng_terminates_repaired c ac h rf two budget st draws ADM W OK HB HD H).
+Qed.
+
 (* ------------------------------------------------------------------ *)
 (** * Examples: a <- not b, b <- not a (two stable models) *)
 
 Definition ex_adf := from_parser cfg_default 2 [(0%nat, FNot (FAtom 1)); (1%nat, FNot (FAtom 0))].
-Definition run_ex (h : heuristic) (rf two : bool) (budget : nat) (draws : list N) :=
+Definition run_ex (h : heuristic) (rf two sx : bool) (budget : nat) (draws : list N) :=
   match ex_adf with
   | Some (st, ac) =>
-    match nogood_search cfg_default ac h rf two budget st draws with
+    match nogood_search cfg_default ac h rf two sx budget st draws with
     | Some (_, l, rest) => Some (l, rest)
     | None => None
     end
   | None => None
   end.
 
-Example ex_simple_twoval : run_ex HSimple true true 50 [] = Some ([[1; 0]; [0; 1]], []).
+(** the repaired loop *)
+Example ex_simple_twoval : run_ex HSimple true true true 50 [] = Some ([[1; 0]; [0; 1]], []).
 Proof. vm_compute. reflexivity. Qed.
-Example ex_simple_stable : run_ex HSimple true false 50 [] = Some ([[1; 0]; [0; 1]], []).
+Example ex_simple_stable : run_ex HSimple true false true 50 [] = Some ([[1; 0]; [0; 1]], []).
 Proof. vm_compute. reflexivity. Qed.
-Example ex_minpaths_twoval : run_ex HMinPathsMaxImp true true 50 [] = Some ([[1; 0]; [0; 1]], []).
+Example ex_minpaths_twoval : run_ex HMinPathsMaxImp true true true 50 [] = Some ([[1; 0]; [0; 1]], []).
 Proof. vm_compute. reflexivity. Qed.
-Example ex_minpaths_stable : run_ex HMinPathsMaxImp true false 50 [] = Some ([[1; 0]; [0; 1]], []).
+Example ex_minpaths_stable : run_ex HMinPathsMaxImp true false true 50 [] = Some ([[1; 0]; [0; 1]], []).
 Proof. vm_compute. reflexivity. Qed.
-Example ex_maximp_twoval : run_ex HMaxImpMinPaths true true 50 [] = Some ([[1; 0]; [0; 1]], []).
+Example ex_maximp_twoval : run_ex HMaxImpMinPaths true true true 50 [] = Some ([[1; 0]; [0; 1]], []).
 Proof. vm_compute. reflexivity. Qed.
-Example ex_maximp_stable : run_ex HMaxImpMinPaths true false 50 [] = Some ([[1; 0]; [0; 1]], []).
+Example ex_maximp_stable : run_ex HMaxImpMinPaths true false true 50 [] = Some ([[1; 0]; [0; 1]], []).
 Proof. vm_compute. reflexivity. Qed.
 Example ex_static_twoval :
-  run_ex (HStatic [1%nat; 0%nat] [false; true]) true true 50 [] = Some ([[0; 1]; [1; 0]], []).
+  run_ex (HStatic [1%nat; 0%nat] [false; true]) true true true 50 [] = Some ([[0; 1]; [1; 0]], []).
 Proof. vm_compute. reflexivity. Qed.
 Example ex_static_stable :
-  run_ex (HStatic [1%nat; 0%nat] [false; true]) true false 50 [] = Some ([[0; 1]; [1; 0]], []).
+  run_ex (HStatic [1%nat; 0%nat] [false; true]) true false true 50 [] = Some ([[0; 1]; [1; 0]], []).
 Proof. vm_compute. reflexivity. Qed.
 (** the random heuristic with the draws 7 (7 mod 2 = 1: the second open statement) and 0 (true);
     the unused draws are handed back *)
 Example ex_rand_twoval :
-  run_ex HRand true true 50 [7; 0; 3; 9223372036854775808; 5; 5]
+  run_ex HRand true true true 50 [7; 0; 3; 9223372036854775808; 5; 5]
   = Some ([[0; 1]; [1; 0]], [3; 9223372036854775808; 5; 5]).
 Proof. vm_compute. reflexivity. Qed.
 Example ex_rand_stable :
-  run_ex HRand true false 50 [7; 0; 3; 9223372036854775808; 5; 5]
+  run_ex HRand true false true 50 [7; 0; 3; 9223372036854775808; 5; 5]
   = Some ([[0; 1]; [1; 0]], [3; 9223372036854775808; 5; 5]).
 Proof. vm_compute. reflexivity. Qed.
 (** a draw stream that is too short gives no answer *)
-Example ex_rand_short : run_ex HRand true false 50 [7] = None.
+Example ex_rand_short : run_ex HRand true false true 50 [7] = None.
+Proof. vm_compute. reflexivity. Qed.
+(** the loop as it was gives the same answers on this framework *)
+Example ex_simple_twoval_old : run_ex HSimple true true false 50 [] = Some ([[1; 0]; [0; 1]], []).
+Proof. vm_compute. reflexivity. Qed.
+Example ex_simple_stable_old : run_ex HSimple true false false 50 [] = Some ([[1; 0]; [0; 1]], []).
+Proof. vm_compute. reflexivity. Qed.
+Example ex_static_stable_old :
+  run_ex (HStatic [1%nat; 0%nat] [false; true]) true false false 50 [] = Some ([[0; 1]; [1; 0]], []).
 Proof. vm_compute. reflexivity. Qed.
 (** the bound of [ng_terminates] for two statements *)
 Example ex_bound : ng_bound 2 = 110%nat.
 Proof. reflexivity. Qed.
-(** the empty framework never answers *)
-Example ex_empty : nogood_search cfg_default [] HSimple true true 1000 (init cfg_default) [] = None.
+(** the empty framework: no answer from the loop as it was, the empty model once from the
+    repaired loop (also by computation, and through the generated flag) *)
+Example ex_empty_old : nogood_search cfg_default [] HSimple true true false 1000 (init cfg_default) [] = None.
 Proof. apply ng_empty_adf_diverges. Qed.
-
-(** all four together: with an admissible heuristic, at least one statement, enough budget (and
-    draws), the search answers, and its answer lists every model exactly once *)
-Corollary ng_correct c ac h rf two budget st draws :
-  admissible c h rf -> ac <> [] -> WF c st -> ac_ok st ac ->
-  (ng_bound (length ac) <= budget)%nat ->
-  (h = HRand -> (2 * ng_bound (length ac) <= length draws)%nat) ->
-  exists st' l rest,
-    nogood_search c ac h rf two budget st draws = Some (st', l, rest) /\
-    WF c st' /\ extends st st' /\ NoDup (map interp_of l) /\
-    forall v, In v (map interp_of l) <-> (if two then Model2 (abs st ac) v else Stable (abs st ac) v).
-Proof.
-  intros ADM NE W OK HB HD.
-  destruct (nogood_search c ac h rf two budget st draws) as [[[st' l] rest]|] eqn:H.
-  - exists st', l, rest. split; [reflexivity|].
-    destruct (ng_sound c ac h rf two budget st draws st' l rest W OK H) as (W' & E' & _).
-    destruct (ng_exact c ac h rf two budget st draws st' l rest ADM W OK H) as [ND EX]. auto.
-  - exfalso. exact (ng_terminates c ac h rf two budget st draws ADM NE W OK HB HD H).
-Qed.
+Example ex_empty_repaired :
+  nogood_search cfg_default [] HSimple true false true 2 (init cfg_default) [4; 2]
+  = Some (init cfg_default, [[]], [4; 2]).
+Proof. vm_compute. reflexivity. Qed.
+Example ex_empty_repaired_1 : nogood_search cfg_default [] HSimple true false true 1 (init cfg_default) [] = None.
+Proof. vm_compute. reflexivity. Qed.
+Example ex_empty_cur :
+  nogood_search_cur cfg_default [] HSimple true 2 (init cfg_default) [] = Some (init cfg_default, [[]], []).
+Proof. vm_compute. reflexivity. Qed.
 
 Print Assumptions simple_admissible.
 Print Assumptions minpaths_admissible.
@@ -2886,9 +3047,13 @@ Print Assumptions rand_unfiltered_not_admissible.
 Print Assumptions ng_sound.
 Print Assumptions ng_no_panic.
 Print Assumptions ng_terminates.
+Print Assumptions ng_terminates_repaired.
 Print Assumptions ng_empty_adf_diverges.
 Print Assumptions ng_terminates_refuted.
+Print Assumptions ng_empty_adf_repaired.
 Print Assumptions ng_complete.
 Print Assumptions ng_nodup.
 Print Assumptions ng_exact.
+Print Assumptions ng_repair_same_models.
 Print Assumptions ng_correct.
+Print Assumptions ng_correct_repaired.
